@@ -234,6 +234,23 @@ CLAIMED = {
              '`yield from` / `await` and are compared on the implementation only. All theorems closed under the global context.',
         technique='Coq bisimulation proof over coinductive generator bodies and a protocol step function + translator-checked template structure + differential correspondence with CPython and beartype',
         design='5/C08'),
+    'C05': dict(
+        text='Machine-checked (Coq 8.16.1) over a model of the hook\'s AST transformation on a statement grammar with '
+             'arbitrary nesting (functions, async functions, classes, compound statements with several suites, annotated '
+             'assignments to names / attributes / subscripts, decorator stacks, docstring and __future__ prologue): removing '
+             'what the hook adds gives the module back (it only adds decorators, check calls and one import); the import '
+             'sits after the prologue, and a prologue-only module gets none; no line number is introduced; with '
+             'claw_is_pep526 off every expression is evaluated as often as before, with it on the annotation and the '
+             'object of an attribute target are machine-shown to be evaluated twice (F29). On every run generated '
+             'modules go through the real BeartypeNodeTransformer under 12 configurations, the result is compiled, read '
+             'back into the grammar with its line numbers and compared with the model (this exposed F30: async def was '
+             'no lexical scope); three behavioural scenarios run through a really hooked import.',
+        note='Trusted: Coq kernel; the hand-written model C05/Ast.v (tied by structural correspondence with the real '
+             'transformer); what the added decorators and calls do at run time is C04 / C13 / C03; decorator-hostile '
+             'decorators, PEP 695 aliases and match statements are outside the generated grammar. All theorems closed '
+             'under the global context.',
+        technique='Coq proofs by nested induction over a statement grammar (erasure inverse, line-number inclusion, evaluation counts) + structural correspondence with the real AST transformer',
+        design='5/C05'),
     'C04': dict(
         text='Machine-checked (Coq 8.16.1): for every signature over the five parameter kinds with pairwise '
              'distinct names and every call that CPython\'s binding rule accepts, the values selected by the '
